@@ -33,6 +33,8 @@ ALLOC_CALLS = {
     'alloc::vec::Vec::<T, A>::reserve_exact': 'reserve_exact', 'alloc::vec::from_elem': 'vec![x; n]',
     'alloc::vec::Vec::<T, A>::resize': 'resize',
 }
+DIV_METHODS = {'wrapping_div', 'wrapping_rem', 'wrapping_div_euclid', 'wrapping_rem_euclid', 'div_euclid', 'rem_euclid',
+               'overflowing_div', 'overflowing_rem', 'saturating_div', 'div_ceil', 'next_multiple_of'}
 INDEX_CALLS = {'core::ops::Index::index': 'index', 'core::ops::IndexMut::index_mut': 'index_mut'}
 
 
@@ -120,6 +122,9 @@ def enumerate_sites(g, fn):
                     rhs = fn.fmt_op(args[1]) if len(args) > 1 else ''
                     expr = ('%s %s %s' % (lhs, op, rhs)) if rhs else ('%s %s' % (op, lhs))
                     sites.append(Site(fn, bi, 'OffsetArith(%s)' % op, expr, line, mac, args, base))
+            elif (res or path).startswith('core::num::') and name in DIV_METHODS and len(t['a']) == 2:
+                expr = '%s.%s(%s)' % (fn.fmt_op(t['a'][0], 4), name, fn.fmt_op(t['a'][1], 4))
+                sites.append(Site(fn, bi, 'divcall(%s)' % name, expr, line, mac, t['a']))
             elif path in PANIC_CALLS:
                 expr = '%s.%s()' % (fn.fmt_op(t['a'][0], 4) if t['a'] else '', PANIC_CALLS[path])
                 sites.append(Site(fn, bi, PANIC_CALLS[path], expr, line, mac, t['a']))
@@ -319,6 +324,8 @@ def discharge(site, ev):
             dv = ev.val(d, bb)
             if dv is not None and (dv[0] > 0 or dv[1] < 0):
                 return _ok(site, 'interval/guard: divisor in %s' % (dv,))
+            if ev.known_nonzero(d, bb):
+                return _ok(site, 'guard: a dominating branch established divisor != 0')
             return
         if k == 'BoundsCheck':
             ln, ix = site.ops
@@ -329,6 +336,14 @@ def discharge(site, ev):
             rel = ev.known_rel(ix, ln, bb)
             if 'Lt' in rel:
                 return _ok(site, 'guarded index: dominating guard index < len')
+            return
+        if k.startswith('divcall('):
+            d = site.ops[1]
+            dv = ev.val(d, bb)
+            if dv is not None and (dv[0] > 0 or dv[1] < 0):
+                return _ok(site, 'interval: divisor in %s' % (dv,))
+            if ev.known_nonzero(d, bb):
+                return _ok(site, 'guard: a dominating branch established divisor != 0')
             return
         if k == 'alloc':
             if site.ops and site.ops[0] is not None:
